@@ -36,10 +36,11 @@ impl SeqMutex {
 }
 impl SeqLockResult {
     #[verifier::external_body]
-    pub fn expect(self, msg: &str) -> (g: SeqGuard) { unimplemented!() }
+    pub fn expect(self, msg: &str) -> (g: SeqGuard) ensures g.held() { unimplemented!() }
 }
 impl SeqGuard {
     pub uninterp spec fn view(&self) -> Map<Seq<char>, u64>;
+    pub uninterp spec fn held(&self) -> bool;      // the seq lock is held through this guard (false once the guard was dropped)
 
     #[verifier::external_body]
     pub fn get(&self, k: &str) -> (r: Option<&u64>)
@@ -65,9 +66,12 @@ impl SeqGuard {
             !old(self)@.contains_key(k@) ==> (reserved(k@, v) || (v >= 1 && reserved(k@, (v - 1) as u64) && appended(k@, (v - 1) as u64))),   // [seq.insert.requires_reserved_init]
         ensures
             final(self)@ == old(self)@.insert(k@, v),
+            final(self).held() == old(self).held(),
             (old(self)@.contains_key(k@) && v == old(self)@[k@] + 1) ==> advanced(k@, v),
             // what the held guard now stores for the stream is its next free seq (exactly what `get` on this guard would report)
             reserved(k@, v),
     { unimplemented!() }
 }
+// `drop(guard)`: the lock is released (stand-in, reached through `rewrite?` when the source starts to drop a guard explicitly)
+#[verifier::external_body] pub fn vrelease(g: &mut SeqGuard) ensures !final(g).held() { unimplemented!() }
 } // verus!
